@@ -23,7 +23,7 @@ import (
 func init() {
 	fw.Register(&fw.Check{
 		ID: "C09", Level: "model_checking", Prepare: prepareStreams,
-		Rule: "every ACCEPTED run of the shared streams (pool documents, corpus and its one-line-edit neighbourhood, context-state representatives, directive-variant sequences, paste graphs, include scenarios, option sets, and the name sweep: all strings of length <= 2 (thorough 3) over {space \" \\ / é 0xFF a { } @ #} in 14 name-bearing positions, plus JSON-RPC id collisions): ToJson succeeds, bytes are valid UTF-8 JSON without a repeated key in any object, the indented form denotes the same value, every interaction's key = its id = protocol + method + path of its own fields, tags and interactions reference each other mutually, every used user type / enum exists, every request and response has a body whose format matches its notation, Title() = info.title; non-trivial = accepted run; distinct = distinct accepted inputs",
+		Rule: "every ACCEPTED run of the shared streams (pool documents, corpus and its one-line-edit neighbourhood, context-state representatives, directive-variant sequences, paste graphs, include scenarios, option sets, and the name sweep: all strings of length <= 2 (thorough 3) over {space \" \\ / é 0xFF a { } @ #} in 14 name-bearing positions, plus JSON-RPC id collisions): ToJson succeeds, bytes are valid UTF-8 JSON without a repeated key in any object, the indented form denotes the same value, every interaction's key = its id = protocol + method + path of its own fields, tags and interactions reference each other mutually, every used user type / enum exists, every request and response has a body whose format matches its notation, Title() = info.title; non-trivial = accepted run; distinct = distinct accepted inputs ; call histories: ALL sequences of 1..4 (thorough 5) calls over {ValidateJAPI, ToJson, ToJsonIndent, Title} on one JApi object (two accepted documents, one rejected): after acceptance every ToJson equals that of a fresh validated object, ToJsonIndent denotes the same value, Title() = info.title",
 		Run:  runC09, QuickCap: 12 * time.Minute, ThoroughCap: 60 * time.Minute,
 	})
 }
